@@ -556,6 +556,9 @@ func serverScripts(cfg peer.Policy, quick bool) []spec {
 	return out
 }
 
+// resumed handshakes are emitted as Coq cases once Model/Handshake.v covers them
+const emitResumed = true
+
 func gen(c *core.Ctx) error {
 	peer.Quiet()
 	lists := [][]string{{"CLAIMTOBE"}, {"FS"}, {"FS", "CLAIMTOBE"}, {"CLAIMTOBE", "PASSWORD"}, {"PASSWORD", "CLAIMTOBE", "FS"}}
@@ -664,6 +667,7 @@ func gen(c *core.Ctx) error {
 	for _, k := range ks {
 		c.Note(fmt.Sprintf("oracle failures %s: %d", k, fails[k]))
 	}
+	genResumed(c, bt, emitResumed)
 	c.Rule("on every successful handshake against a scripted peer: Authentication=REQUIRED => an own-listed method ran to success as seen by the peer; Encryption/Integrity=REQUIRED => Stream.IsEncrypted and the next bytes written are not cleartext on the wire; reported Encryption == IsEncrypted == not-cleartext; reported Authentication == an exchange succeeded, reported NegotiatedAuth == that method; and (error, reported fields, IsEncrypted, exchanges seen) == Model/Handshake.v")
 	c.Exhaustive(false)
 	c.Assume("scripted peers serve CLAIMTOBE and the PASSWORD stub only; a peer that selects another method goes away")
@@ -681,6 +685,13 @@ func replay(raw json.RawMessage) error {
 			if err := replay(x); err != nil {
 				return err
 			}
+		}
+		return nil
+	}
+	var rs resSpec
+	if json.Unmarshal(raw, &rs) == nil && (rs.Kind == "rescli" || rs.Kind == "ressrv") {
+		if key, txt := judgeRes(rs, runRes(rs)); key != "" {
+			return fmt.Errorf("%s: %s", key, txt)
 		}
 		return nil
 	}
